@@ -5,7 +5,7 @@ EXTENDS Directives
 
 Tables == {"Item", "Order"}
 Enums == << [type |-> "Kind", names |-> <<"KA", "KB">>, values |-> <<"0", "1">>],
-            [type |-> "Color", names |-> <<"Red", "Blue">>, values |-> <<"'red'", "'blue'">>] >>
+            [type |-> "Color", names |-> <<"Red", "Blue">>, values |-> <<"'red'", "'Order'">>] >>
 
 Constraints == {
     <<"ADD", "UNIQUE", "(", "A", ",", "B", ")">>,
